@@ -347,6 +347,7 @@ func runC07Race(tier string, seed uint64) {
 		c07Rounds(kind, rng, 6, 4, false)
 		c07Rounds(kind, rng, 3, 16, false)
 		c07MultipartForced(kind)
+		mpSlowPart("c07", kind)
 		c07MultipartRounds(kind, rng, 8)
 	}
 	c07Rounds("mem", rng, 8, 5, true)
@@ -378,6 +379,7 @@ func runC07(tier string, seed uint64) {
 			}
 		}
 		c07MultipartForced(kind)
+		mpSlowPart("c07", kind)
 		for rep := 0; rep < reps; rep++ {
 			c07MultipartRounds(kind, rng, rounds)
 		}
